@@ -1,7 +1,8 @@
 """C01 -- Galerkin entries equal the 4-fold heat-kernel integral.
 Structure of the computation (DESIGN.md E2, E3, E4)."""
-from .. import quadalg, causal, kernels, panels
+from .. import quadalg, meshrules, causal, kernels, panels
 from ..cas import run_tasks
+from .. import problems_cert as pc
 
 LEVEL = 'other'
 META = {
@@ -38,12 +39,19 @@ def run(prog, report, tier):
     panels.check_asserts(prog, report)
     panels.check_binding(prog, report)
     panels.check_even(prog, report)
+    meshrules.check_element_geometry(prog, report)
+    quadalg.check_affine(prog, report)
+    quadalg.check_layout(prog, report)
+    quadalg.check_duffy(prog, report, 'DuffyScheme2D', 'scheme2d', 2,
+                        [({'symmetric': False}, False)], 6,
+                        {False: 2, True: 1}, None)
     panels.check_straight(prog, report, which=('bilform', ))
     causal.run_sites(prog, report, which=('posdiff', ),
                      files={kernels.SL, kernels.SLX})
     tasks = [(kernels.cert_K1, (prog.repo, )),
              (kernels.cert_K2_fourterm, (prog.repo, )),
-             (kernels.cert_fourterm_exact, (prog.repo, ))]
+             (kernels.cert_fourterm_exact, (prog.repo, )),
+             (pc.cert_K9, (prog.repo, ))]
     for k in ('fint_1', 'fint_2', 'fint_3', 'fint_4'):
         tasks.append((kernels.cert_K4, (prog.repo, k, tier)))
     run_tasks(report, tasks)
